@@ -5,7 +5,7 @@ tables), (b) a small crate that reads real objects as raw words (dynamic layout)
     render_layout.py <layout.jsonl> <out_dir>"""
 import json, os, sys
 
-BODY = {"n1": 71, "vo_a": 72, "n2": 73, "sk_b": 74, "n3": 75, "vo_c": 76, "n4": 77, "zz": 11, "aa": 12, "mm": 13, "b1": 21, "a2": 22, "only": 31, "q": 41, "p": 42, "r": 43, "o": 44, "s": 45, "tb1": 51, "ta2": 61, "ta1": 62,
+BODY = {"ws_d": 78, "n1": 71, "vo_a": 72, "n2": 73, "sk_b": 74, "n3": 75, "vo_c": 76, "n4": 77, "zz": 11, "aa": 12, "mm": 13, "b1": 21, "a2": 22, "only": 31, "q": 41, "p": 42, "r": 43, "o": 44, "s": 45, "tb1": 51, "ta2": 61, "ta1": 62,
         "open": 81, "close": 82, "ident": 83, "reset": 84, "b1x": 91, "b2x": 92, "b3x": 93, "b4x": 94, "b5x": 95}
 
 
@@ -15,6 +15,8 @@ def method_decl(m):
         return "        type %s;" % m.title().replace("_", "")
     if m.startswith("vo_"):
         return "        #[vtbl_only]\n        fn %s(&self) -> u64 { 0 }" % m
+    if m.startswith("ws_"):
+        return "        fn %s(&self) -> u64 where Self: Sized { 0 }" % m
     if m.startswith("sk_"):
         return "        #[skip_func]\n        fn %s(&self) -> u64 { 0 }" % m
     return "        fn %s(&self) -> u64;" % m
